@@ -2,9 +2,11 @@ SPECIFICATION Spec
 CONSTANTS
   MaxNf = 2
   Roles <- RolesAll
-  PlaceholderTypedAsCookie = TRUE
+  PlaceholderTypedAsCookie = FALSE
   UidChecked = FALSE
   AdWhole = TRUE
+  StopAtAuth = TRUE
+  CtLenExact = TRUE
   LenChoices <- LenChoicesGen
   TruncMax = 2
 INVARIANTS Sound
